@@ -2590,6 +2590,12 @@ func oracleC11(r *report, g *G, n int, single string) {
 		k, _ := strconv.Atoi(f[1])
 		check(k, f[2:])
 	}
+	// values beyond what a frame can carry (the encoder truncates the length prefix): reading
+	// such a packet still changes nothing
+	g.domain = false
+	for _, bc := range stringBoundaryCases(g, []int{65536, 70000}) {
+		check(bc.k, bc.cs)
+	}
 	// a read-only call in the middle of a history changes nothing that comes later: the frame
 	// is the frame of the same calls without it
 	g.domain = true
